@@ -1,1 +1,356 @@
-// harnesses for src/sync_rwlock (child module, cfg(kani) only)
+// C12: harnesses over the real src/sync/rwlock.rs (+ inner Mutex<usize>, poison.rs).
+// Child module of src/sync/rwlock.rs (cfg(kani) only).  The poison types come from the shim copy
+// of std's panic=unwind definitions (Kani's libstd is panic=abort, where PoisonError is
+// uninhabited and every Poisoned path would silently vanish).
+use super::*;
+use crate::sync::blocking::Blocker;
+use crate::verif_shim::{np, rt, sa};
+use std::panic as stdpanic;
+
+fn is_coroutine_false() -> bool {
+    false
+}
+/// these harnesses never call a blocking operation that cannot proceed at once; reaching park
+/// means the lock was not free although the model says it is: a lost release
+fn park_unreachable(_b: &Blocker, _t: Option<std::time::Duration>) -> Result<(), ParkError> {
+    assert!(false, "C12: read()/write() had to block although no conflicting guard is alive (lock leaked)");
+    kani::assume(false);
+    Ok(())
+}
+fn unpark_nop(_b: &Blocker) {}
+/// the waiter queues are only touched under contention, which these harnesses never create
+/// (asserted): keeps the lock-free queue code out of the formula
+fn segq_push_unreachable<T>(_q: &SegQueue<T>, v: T) {
+    assert!(false, "model: waiter queue used without contention");
+    std::mem::forget(v);
+    kani::assume(false);
+}
+fn segq_pop_unreachable<T>(_q: &SegQueue<T>) -> Option<T> {
+    assert!(false, "C12: unlock found a waiter count > 1 although nobody waits (count corrupted)");
+    kani::assume(false);
+    None
+}
+fn mq_push_unreachable<T>(_q: &may_queue::mpsc::Queue<T>, v: T) {
+    assert!(false, "model: waiter queue used without contention");
+    std::mem::forget(v);
+    kani::assume(false);
+}
+fn mq_pop_unreachable<T>(_q: &may_queue::mpsc::Queue<T>) -> Option<T> {
+    assert!(false, "C12: inner mutex unlock found a waiter count > 1 although nobody waits");
+    kani::assume(false);
+    None
+}
+
+macro_rules! rw_harness {
+    ($(#[$m:meta])* fn $name:ident() $body:block) => {
+        #[kani::proof]
+        $(#[$m])*
+        #[kani::stub(stdpanic::catch_unwind, rt::catch_unwind_stub)]
+        #[kani::stub(stdpanic::take_hook, rt::take_hook_stub)]
+        #[kani::stub(stdpanic::set_hook, rt::set_hook_stub)]
+        #[kani::stub(crate::sync::blocking::Blocker::park, park_unreachable)]
+        #[kani::stub(crate::sync::blocking::Blocker::unpark, unpark_nop)]
+        #[kani::stub(crossbeam::queue::SegQueue::push, segq_push_unreachable)]
+        #[kani::stub(crossbeam::queue::SegQueue::pop, segq_pop_unreachable)]
+        #[kani::stub(may_queue::mpsc::Queue::push, mq_push_unreachable)]
+        #[kani::stub(may_queue::mpsc::Queue::pop, mq_pop_unreachable)]
+        #[kani::stub(std::thread::panicking, np::panicking_stub)]
+        #[kani::stub(crate::coroutine_impl::is_coroutine, is_coroutine_false)]
+        #[kani::stub(std::sync::Arc::drop_slow, rt::arc_drop_slow_stub)]
+        fn $name() $body
+    };
+}
+
+fn take_read<'a>(r: TryLockResult<RwLockReadGuard<'a, u8>>, poisoned: bool) -> Option<RwLockReadGuard<'a, u8>> {
+    match r {
+        Ok(g) => {
+            assert!(!poisoned, "C12: Ok guard from a poisoned lock");
+            Some(g)
+        }
+        Err(TryLockError::Poisoned(e)) => {
+            assert!(poisoned, "C12: Poisoned error from a clean lock");
+            Some(e.into_inner())
+        }
+        Err(TryLockError::WouldBlock) => None,
+    }
+}
+fn take_write<'a>(r: TryLockResult<RwLockWriteGuard<'a, u8>>, poisoned: bool) -> Option<RwLockWriteGuard<'a, u8>> {
+    match r {
+        Ok(g) => {
+            assert!(!poisoned, "C12: Ok guard from a poisoned lock");
+            Some(g)
+        }
+        Err(TryLockError::Poisoned(e)) => {
+            assert!(poisoned, "C12: Poisoned error from a clean lock");
+            Some(e.into_inner())
+        }
+        Err(TryLockError::WouldBlock) => None,
+    }
+}
+fn lr_read<'a>(r: LockResult<RwLockReadGuard<'a, u8>>) -> RwLockReadGuard<'a, u8> {
+    match r {
+        Ok(g) => g,
+        Err(e) => e.into_inner(),
+    }
+}
+fn lr_write<'a>(r: LockResult<RwLockWriteGuard<'a, u8>>) -> RwLockWriteGuard<'a, u8> {
+    match r {
+        Ok(g) => g,
+        Err(e) => e.into_inner(),
+    }
+}
+
+/// H-seq: a solver-chosen history of `N` operations from {try_read, try_write, read, write,
+/// drop read guard, drop write guard, drop write guard while panicking} on a lock that starts
+/// clean, guards recovered from PoisonError included.  Reference model: number of live read
+/// guards, live write guard, poisoned flag.
+fn seq_history(n_ops: usize) {
+    let l: &'static RwLock<u8> = Box::leak(Box::new(RwLock::new(0u8)));
+    let mut rg: [Option<RwLockReadGuard<'static, u8>>; 2] = [None, None];
+    let mut wg: Option<RwLockWriteGuard<'static, u8>> = None;
+    let mut poisoned = false;
+    let mut n = 0;
+    while n < n_ops {
+        let readers = rg[0].is_some() as usize + rg[1].is_some() as usize;
+        let writer = wg.is_some();
+        let op: u8 = kani::any();
+        match op {
+            0 => {
+                let slot = if rg[0].is_none() { 0 } else { 1 };
+                if rg[slot].is_none() {
+                    let g = take_read(l.try_read(), poisoned);
+                    if writer {
+                        assert!(g.is_none(), "C12: try_read succeeded while a write guard is alive");
+                    } else {
+                        assert!(g.is_some(), "C12: try_read refused although no writer holds the lock");
+                    }
+                    rg[slot] = g;
+                }
+            }
+            1 => {
+                if !writer {
+                    let g = take_write(l.try_write(), poisoned);
+                    if readers > 0 {
+                        assert!(g.is_none(), "C12: try_write succeeded while read guards are alive");
+                    } else {
+                        assert!(g.is_some(), "C12: try_write refused although the lock is free (lock leaked)");
+                    }
+                    wg = g;
+                }
+            }
+            2 => {
+                // blocking read: only when it can proceed
+                if !writer && rg[1].is_none() {
+                    let slot = if rg[0].is_none() { 0 } else { 1 };
+                    let r = l.read();
+                    assert!(r.is_err() == poisoned);
+                    rg[slot] = Some(lr_read(r));
+                }
+            }
+            3 => {
+                if !writer && readers == 0 {
+                    let r = l.write();
+                    assert!(r.is_err() == poisoned);
+                    wg = Some(lr_write(r));
+                }
+            }
+            4 => {
+                let slot: usize = if kani::any() { 0 } else { 1 };
+                let g = rg[slot].take();
+                drop(g);
+            }
+            5 => {
+                let g = wg.take();
+                drop(g);
+            }
+            _ => {
+                // the holder of the write guard panics: the guard is dropped by the unwind
+                if let Some(g) = wg.take() {
+                    unsafe { np::PANICKING = true };
+                    drop(g);
+                    unsafe { np::PANICKING = false };
+                    poisoned = true;
+                }
+            }
+        }
+        assert!(l.is_poisoned() == poisoned, "C12: poison flag disagrees with the history");
+        n += 1;
+    }
+    kani::cover!(poisoned && rg[0].is_some(), "a read guard was obtained from a poisoned lock");
+    kani::cover!(poisoned && wg.is_some(), "a write guard was obtained from a poisoned lock");
+    // all guards dropped: the lock is free again
+    let a = rg[0].take();
+    drop(a);
+    let b = rg[1].take();
+    drop(b);
+    let c = wg.take();
+    drop(c);
+    let g = take_write(l.try_write(), poisoned);
+    assert!(g.is_some(), "C12: after all guards were dropped try_write still reports WouldBlock (lock leaked)");
+    std::mem::forget(g);
+}
+rw_harness! { #[kani::unwind(5)] fn c12_rwlock_seq_3ops() { seq_history(3) } }
+rw_harness! { #[kani::unwind(6)] fn c12_rwlock_seq_4ops() { seq_history(4) } }
+
+fn maybe_poison(l: &'static RwLock<u8>) -> bool {
+    let poisoned: bool = kani::any();
+    if poisoned {
+        let g = lr_write(l.write());
+        unsafe { np::PANICKING = true };
+        drop(g);
+        unsafe { np::PANICKING = false };
+    }
+    assert!(l.is_poisoned() == poisoned);
+    poisoned
+}
+fn assert_free(l: &'static RwLock<u8>, poisoned: bool) {
+    let g = take_write(l.try_write(), poisoned);
+    assert!(g.is_some(), "C12: after all guards were dropped try_write still reports WouldBlock (lock leaked)");
+    drop(g);
+    let g = take_read(l.try_read(), poisoned);
+    assert!(g.is_some(), "C12: after all guards were dropped try_read reports WouldBlock (lock leaked)");
+    drop(g);
+}
+/// scenario: (clean | poisoned) lock; one or two readers through try_read / read in a
+/// solver-chosen mix, dropped in a solver-chosen order; writers are refused meanwhile; free after
+fn readers_scenario() {
+    let l: &'static RwLock<u8> = Box::leak(Box::new(RwLock::new(0u8)));
+    let poisoned = maybe_poison(l);
+    let g1 = if kani::any() { take_read(l.try_read(), poisoned) } else { Some(lr_read(l.read())) };
+    assert!(g1.is_some(), "C12: a free lock refused a reader");
+    let two: bool = kani::any();
+    let g2 = if two {
+        let g = if kani::any() { take_read(l.try_read(), poisoned) } else { Some(lr_read(l.read())) };
+        assert!(g.is_some(), "C12: second reader refused although only readers hold the lock");
+        g
+    } else {
+        None
+    };
+    assert!(take_write(l.try_write(), poisoned).is_none(), "C12: try_write succeeded while read guards are alive");
+    if kani::any() {
+        drop(g1);
+        if two {
+            assert!(take_write(l.try_write(), poisoned).is_none(), "C12: writer admitted while a reader is left");
+        }
+        drop(g2);
+    } else {
+        drop(g2);
+        assert!(take_write(l.try_write(), poisoned).is_none(), "C12: writer admitted while a reader is left");
+        drop(g1);
+    }
+    kani::cover!(poisoned && two, "two read guards recovered from a poisoned lock");
+    kani::cover!(!poisoned, "clean lock");
+    assert_free(l, poisoned);
+}
+rw_harness! { #[kani::unwind(5)] fn c12_rwlock_readers_scenario() { readers_scenario() } }
+
+/// scenario: (clean | poisoned) lock; a writer through try_write / write; readers and writers
+/// are refused meanwhile; the guard is dropped normally or by a panic; free (and poisoned iff a
+/// panic dropped a guard) afterwards
+fn writer_scenario() {
+    let l: &'static RwLock<u8> = Box::leak(Box::new(RwLock::new(0u8)));
+    let mut poisoned = maybe_poison(l);
+    let g = if kani::any() { take_write(l.try_write(), poisoned) } else { Some(lr_write(l.write())) };
+    assert!(g.is_some(), "C12: a free lock refused a writer");
+    assert!(take_write(l.try_write(), poisoned).is_none(), "C12: two write guards at once");
+    assert!(take_read(l.try_read(), poisoned).is_none(), "C12: read guard handed out while a write guard is alive");
+    if kani::any() {
+        unsafe { np::PANICKING = true };
+        drop(g);
+        unsafe { np::PANICKING = false };
+        poisoned = true;
+    } else {
+        drop(g);
+    }
+    assert!(l.is_poisoned() == poisoned, "C13: poison flag wrong after the write guard was dropped");
+    kani::cover!(poisoned, "poisoned path");
+    assert_free(l, poisoned);
+}
+rw_harness! { #[kani::unwind(5)] fn c12_rwlock_writer_scenario() { writer_scenario() } }
+
+// ---- H-np: two lockers race on a clean or poisoned lock -------------------------------------------
+static mut L: *const RwLock<u8> = std::ptr::null();
+static mut B_LEFT: bool = false;
+static mut B_KIND: u8 = 0; // 0 try_write, 1 try_read
+static mut B_HOLDS: bool = false;
+static mut POISONED: bool = false;
+fn run_b() {
+    unsafe {
+        B_LEFT = false;
+        np::nested(|| {
+            if B_KIND == 0 {
+                let g = take_write((*L).try_write(), POISONED);
+                B_HOLDS = g.is_some();
+                std::mem::forget(g);
+            } else {
+                let g = take_read((*L).try_read(), POISONED);
+                B_HOLDS = g.is_some();
+                std::mem::forget(g);
+            }
+        });
+    }
+}
+fn hook() {
+    unsafe {
+        if np::DEPTH == 0 && B_LEFT && kani::any() {
+            run_b();
+        }
+    }
+}
+macro_rules! rw_np_harness {
+    ($(#[$m:meta])* fn $name:ident() $body:block) => {
+        rw_harness! {
+            $(#[$m])*
+            #[kani::stub(core::sync::atomic::Atomic::<usize>::load, sa::usize_load)]
+            #[kani::stub(core::sync::atomic::Atomic::<usize>::compare_exchange, sa::usize_cas)]
+            #[kani::stub(core::sync::atomic::Atomic::<usize>::fetch_sub, sa::usize_fetch_sub)]
+            fn $name() $body
+        }
+    };
+}
+/// A = try_write (or try_read); B's whole try_write / try_read lands at any atomic step of A
+/// (or after it).  Never two writers, never a writer together with a reader - also when the lock
+/// is poisoned and both callers recover their guard from the PoisonError.
+fn two_lockers() {
+    let l: &'static RwLock<u8> = Box::leak(Box::new(RwLock::new(0u8)));
+    let poisoned: bool = kani::any();
+    if poisoned {
+        let g = lr_write(l.write());
+        unsafe { np::PANICKING = true };
+        drop(g);
+        unsafe { np::PANICKING = false };
+    }
+    let a_kind: u8 = if kani::any() { 0 } else { 1 };
+    unsafe {
+        L = l;
+        POISONED = poisoned;
+        B_KIND = if kani::any() { 0 } else { 1 };
+        B_LEFT = true;
+        np::HOOK = Some(hook);
+    }
+    let a_holds = if a_kind == 0 {
+        let g = take_write(l.try_write(), poisoned);
+        let h = g.is_some();
+        std::mem::forget(g);
+        h
+    } else {
+        let g = take_read(l.try_read(), poisoned);
+        let h = g.is_some();
+        std::mem::forget(g);
+        h
+    };
+    unsafe {
+        np::HOOK = None;
+        if B_LEFT {
+            run_b();
+        }
+        let both = a_holds && B_HOLDS;
+        if a_kind == 0 || B_KIND == 0 {
+            assert!(!both, "C12: two guards handed out at once although one of them is a write guard");
+        }
+        assert!(a_holds || B_HOLDS, "C12: both lockers were refused although the lock was free");
+        kani::cover!(poisoned && np::PREEMPTS > 0 && !both, "race on a poisoned lock, one winner");
+        kani::cover!(a_kind == 1 && B_KIND == 1 && both, "two readers share the lock");
+    }
+}
+rw_np_harness! { #[kani::unwind(5)] fn c12_rwlock_np_two_lockers() { two_lockers() } }
